@@ -292,6 +292,10 @@ async def _main(world, case):
             final[p]["reclose"] = "ok"
         except asyncio.TimeoutError:
             final[p]["reclose"] = "timeout"
+        except asyncio.CancelledError:
+            if asyncio.current_task().cancelling():
+                raise
+            final[p]["reclose"] = "timeout"     # the close future is in the cancelled state: see close_world._do_close
         except Exception as exc:  # noqa: BLE001
             final[p]["reclose"] = type(exc).__name__
         loop.counting = False
@@ -338,4 +342,5 @@ def run_explore(case):
            "iters": world.iter_total, "notes": world.notes, "secs": round(time.monotonic() - t_start, 2),
            "foreign": sorted(set(qn for (t, qn) in world.foreign if not t.done())), "broken": world.broken}
     res.update(out)
+    res["case_call"] = case["call"]
     return res
